@@ -172,6 +172,33 @@ func c16Features() []c16Prog {
 	add("recursion-default", "function fib($n = 10) { if ($n < 2) { return $n; } return fib($n - 1) + fib($n - 2); }\necho fib(), \" \", fib(5), \"\\n\";\n")
 	add("by-ref-param", "function inc(&$x) { $x = $x + 1; }\n$v = 1; inc($v); inc($v);\necho $v, \"\\n\";\n")
 	add("exit-status", "echo \"before\\n\";\nexit(3);\n")
+	// literal x context: every scalar literal the emitter has to carry into the generated Go source, in every
+	// place a literal can be written (expression, class constant, static / instance property default, parameter default)
+	lits := []struct{ name, lit string }{
+		{"flt-short", "2.5"}, {"flt-17digits", "0.30000000000000004"}, {"flt-pi", "3.141592653589793"}, {"flt-7plus", "1234567.891"},
+		{"flt-exp", "1.5e-7"}, {"flt-big", "1.0e21"}, {"flt-max", "1.7976931348623157e308"}, {"flt-tiny", "5.0e-324"}, {"flt-third", "0.3333333333333333"},
+		{"int-small", "42"}, {"int-2p53", "9007199254740993"}, {"int-max", "9223372036854775807"}, {"int-neg", "-9223372036854775807"},
+		{"str-plain", "\"plain\""}, {"str-escapes", "\"tab\\there \\\"q\\\" back\\\\slash \\x41 \\u{4f60}\""}, {"str-single", "'it''s'"}, {"str-dollar", "'cost $5 {$x}'"},
+		{"bool", "true"}, {"null", "null"},
+	}
+	for li, l := range lits {
+		if l.name == "str-single" {
+			l.lit = "'it\\'s \\n raw'"
+		}
+		var sb strings.Builder
+		fmt.Fprintf(&sb, "class LitHolder {\n  const C = %s;\n  public static $s = %s;\n  public $p = %s;\n  public function get($d = %s) { return $d; }\n}\n", l.lit, l.lit, l.lit, l.lit)
+		fmt.Fprintf(&sb, "function show($v) { echo var_export($v, true), \"|\", json_encode($v), \"|\", gettype($v), \"\\n\"; }\n")
+		fmt.Fprintf(&sb, "$v = %s;\nshow($v);\nshow(LitHolder::C);\nshow(LitHolder::$s);\n$o = new LitHolder();\nshow($o->p);\nshow($o->get());\nshow([%s, \"k\" => %s]);\n", l.lit, l.lit, l.lit)
+		if strings.HasPrefix(l.name, "flt") || strings.HasPrefix(l.name, "int") {
+			fmt.Fprintf(&sb, "show(%s + 0);\nshow(%s == LitHolder::C);\nshow(%s * 2);\n", l.lit, l.lit, l.lit)
+		}
+		// all files of a batch are parsed by one compile run: declarations need names of their own
+		add("literal/"+l.name, strings.NewReplacer("LitHolder", fmt.Sprintf("LitHolder%d", li), "show(", fmt.Sprintf("show%d(", li)).Replace(sb.String()))
+	}
+	// late static binding and class references resolved at run time through an inherited member
+	add("lsb/new-static", "class Model {\n  public static $table = \"models\";\n  public static function make() { return new static(); }\n  public static function makeSelf() { return new self(); }\n  public static function tbl() { return static::$table; }\n  public static function selfTbl() { return self::$table; }\n  public static function who() { return static::class; }\n  public function me() { return get_class($this); }\n}\nclass User extends Model {\n  public static $table = \"users\";\n}\nclass Admin extends User {\n  public static function make() { return parent::make(); }\n}\n"+
+		"foreach ([\"Model\", \"User\", \"Admin\"] as $c) {\n  echo $c, \": \", get_class($c::make()), \" \", get_class($c::makeSelf()), \" \", $c::tbl(), \" \", $c::selfTbl(), \" \", $c::who(), \"\\n\";\n}\necho get_class(User::make()), \" \", get_class(Admin::make()), \" \", User::make()->me(), \"\\n\";\n")
+	add("lsb/static-call-chain", "class A {\n  public static function create() { return static::build(); }\n  public static function build() { return \"A.build\"; }\n  public function run() { return static::build() . \"/\" . self::build(); }\n}\nclass B extends A {\n  public static function build() { return \"B.build\"; }\n}\necho A::create(), \" \", B::create(), \" \", (new B())->run(), \" \", (new A())->run(), \"\\n\";\n")
 	return out
 }
 
@@ -429,13 +456,20 @@ func C16(c *Ctx) *kf.Report {
 	rep.Coverage["compared"] = compared
 	rep.Coverage["compared_with_spec_prediction"] = specCompared
 	rep.Coverage["compile_errors_reported"] = compileErrors
+	var ceSamples []any
+	for i, r := range results {
+		if r.compileErr != "" && len(ceSamples) < 25 {
+			ceSamples = append(ceSamples, map[string]string{"program": progs[i].id, "error": tailStr(r.compileErr, 240)})
+		}
+	}
+	rep.Coverage["compile_error_samples"] = ceSamples
 	rep.Coverage["batches_built"] = built
 	rep.Coverage["by_family"] = fams
 	rep.Coverage["distinct_nontrivial"] = compared
 	rep.Coverage["traces_validated_against_impl"] = compared
 	rep.Coverage["exhaustive"] = false
 	rep.Coverage["trusted_base"] = []string{"go toolchain", "harness templates mirroring the built-in register/main templates"}
-	rep.Coverage["rule"] = "programs of the Lang.tla families (enumerated loop x control nests, seeded typed programs, try/catch/finally shapes, uncaught throws; each run by TLC on the reference machine first), feature programs (closures with 0..2 parameters x 1..2 captures x 0..2 preceding variables, arrow functions, global statements, statics, interpolation, match, exceptions, exit status), class-bearing entry files and deterministic corpus files; every program is translated by the real compile command, built into one binary per batch, run compiled and interpreted; non-trivial = programs compared"
+	rep.Coverage["rule"] = "programs of the Lang.tla families (enumerated loop x control nests, seeded typed programs, try/catch/finally shapes, uncaught throws; each run by TLC on the reference machine first), feature programs (closures with 0..2 parameters x 1..2 captures x 0..2 preceding variables, arrow functions, global statements, statics, interpolation, match, exceptions, exit status; 19 scalar literals (floats needing up to 17 digits, 64-bit boundary ints, escaped strings) x every place a literal can be written; late static binding through inherited members), class-bearing entry files and deterministic corpus files; every program is translated by the real compile command, built into one binary per batch, run compiled and interpreted; non-trivial = programs compared"
 	if len(progs) > 0 {
 		rep.Coverage["samples"] = []any{map[string]any{"id": progs[0].id, "source": tailStr(progs[0].src, 800)}, map[string]any{"id": progs[len(progs)-1].id}}
 	}
